@@ -35,9 +35,13 @@ API
 Domain (kept inside the statement of C02): attribute values hold no TAB/LF/CR, text holds no CR;
 no internal DTD subset (genshi's DOCTYPE event has no place for it); XML 1.0 `Char`s only.
 Options of gen_doc: depth, width, ns ('none'|'simple'|'heavy'), nonascii (where non-ASCII characters
-may occur: 'all' | 'textattr' | 'none'), html_entities, prolog (decl/doctype/misc allowed).
+may occur: 'all' | 'textattr' | 'none'), html_entities, prolog (decl/doctype/misc allowed), xml_prefix_decl,
+cdata_runs (opt-in: probability that a child slot holds a *run of adjacent character data* — CDATA sections
+directly next to each other, to text and to references, empty sections, sections ending in `]` / `]]`, and
+character data containing `]]>` written the one legal way, split over two sections: `..]]]]><![CDATA[>..`).
 """
 import json
+import re
 
 XML_NS = 'http://www.w3.org/XML/1998/namespace'
 URIS = ['u1', 'u2', 'urn:x:y', 'http://www.w3.org/1999/xhtml', 'p', 'http://example.org/a?b=1&c=2']
@@ -187,6 +191,12 @@ def _gen_elem(rng, scope, depth, o):
         nk = rng.randrange(0, o['width'] + 1)
         last = None
         for _ in range(nk):
+            if o.get('cdata_runs') and rng.random() < o['cdata_runs']:
+                run = _gen_run(rng, o, last == 't')
+                if run:
+                    kids.extend(run)
+                    last = run[-1]['t']
+                continue
             r = rng.random()
             if r < 0.40:
                 kids.append(_gen_elem(rng, scope, depth - 1, o))
@@ -212,6 +222,8 @@ def _gen_elem(rng, scope, depth, o):
                         cd = {'t': 'cd', 's': v}
                 kids.append(cd)
                 last = 'cd'
+    elif o.get('cdata_runs') and rng.random() < o['cdata_runs']:
+        kids.extend(_gen_run(rng, o, False))
     elif rng.random() < 0.5:
         kids.append({'t': 't', 'parts': _parts(rng, o['nonascii'] != 'none', o['html_entities'])})
     return {'t': 'e', 'name': name, 'prefix': pfx, 'decls': decls, 'attrs': attrs, 'order': order, 'kids': kids,
@@ -236,6 +248,62 @@ def _gen_pi(rng, o):
 def _gen_cdata(rng, o):
     s = _chars(rng, rng.randrange(0, 8), o['nonascii'] == 'all').replace(']]>', ']] >')
     return {'t': 'cd', 's': s}
+
+
+SEAM_POOL = [']', ']]', '>', ']>', ']]]', '>>', 'a', 'b', ' ', '\n', '&', '<', '&amp;', '&#62;', '<![CDATA[', '-->', '?>', '[',
+             'x[i[0]]', '</a>']
+SPLIT_POOL = ['a]]>b', ']]>', 'x]]]>', 'if (a[b[0]]>1) x();', ']]>]]>', '<![CDATA[x]]>', ' ]]>\n', ']]]]>>']
+
+
+def _seam_str(rng, o, maxtok=3):
+    toks = []
+    for _ in range(rng.randrange(0, maxtok + 1)):
+        if o['nonascii'] == 'all' and rng.random() < 0.15:
+            toks.append(rng.choice(HI_POOL))
+        else:
+            toks.append(rng.choice(SEAM_POOL))
+    return ''.join(toks)
+
+
+def _gen_run(rng, o, after_text):
+    """adjacent character data: CDATA sections next to each other, to text and to references.  No two text
+    nodes in a row (a text node is one run of parts already; `_write_parts` guards `]]>` inside one node only)."""
+    out = []
+    last_t = after_text
+    n = rng.randrange(1, 5)
+    while len(out) < n:
+        r = rng.random()
+        if r < 0.30:
+            # character data that contains "]]>", written as CDATA the only legal way: split inside the "]]>"
+            v = rng.choice(SPLIT_POOL)
+            cuts = [m.start() + k for m in re.finditer(r'(?=\]\]>)', v) for k in (1, 2)]
+            pieces, prev = [], 0
+            for c in sorted(set(cuts)):
+                if ']]>' in v[prev:c + 1] or c == cuts[-1] or rng.random() < 0.6:
+                    pieces.append(v[prev:c])
+                    prev = c
+            pieces.append(v[prev:])
+            if any(']]>' in p for p in pieces):     # cannot happen; keeps the document well-formed whatever the pools hold
+                pieces = [p.replace(']]>', ']] >') for p in pieces]
+            out.extend({'t': 'cd', 's': p} for p in pieces)
+            last_t = False
+        elif r < 0.72 or last_t:
+            out.append({'t': 'cd', 's': _seam_str(rng, o).replace(']]>', ']] >')})
+            last_t = False
+        else:
+            parts = []
+            for _ in range(rng.randrange(1, 4)):
+                k = rng.random()
+                if k < 0.6:
+                    lit = _seam_str(rng, o, 2) or ']]'
+                    parts.append(['lit', lit])
+                elif k < 0.8:
+                    parts.append(['ent', rng.choice(['gt', 'amp', 'lt'])])
+                else:
+                    parts.append([rng.choice(['dec', 'hex']), rng.choice([62, 93, 38, 10])])
+            out.append({'t': 't', 'parts': parts})
+            last_t = True
+    return out
 
 
 DEFAULTS = {'depth': 3, 'width': 4, 'ns': 'heavy', 'nonascii': 'textattr', 'html_entities': True, 'prolog': True}
@@ -567,8 +635,30 @@ def doc_stats(doc):
     if doc['prolog'] or doc['epilog']:
         tags.add('misc-outside-root')
 
+    def kids_stats(kids):
+        for a, b in zip(kids, kids[1:]):
+            ta, tb = a['t'], b['t']
+            if ta == 'cd' and tb == 'cd':
+                tags.add('cdata-adjacent')
+                if (a['s'] + '\x00' + b['s']).replace('\x00', '').find(']]>') >= 0:
+                    tags.add('cdata-seam-]]>')
+            if {ta, tb} == {'cd', 't'}:
+                tags.add('cdata-next-to-text')
+        for k in kids:
+            if k['t'] == 'cd':
+                if not k['s']:
+                    tags.add('cdata-empty')
+                if k['s'].endswith(']'):
+                    tags.add('cdata-ends-with-]')
+                if '<' in k['s'] or '&' in k['s']:
+                    tags.add('cdata-with-markup-chars')
+        if any(k['t'] == 'cd' for k in kids) and any(k['t'] == 'e' for k in kids):
+            tags.add('cdata-in-mixed-content')
+
     def walk(n, scope, depth):
         t = n['t']
+        if t == 'e':
+            kids_stats(n['kids'])
         if t != 'e':
             tags.add({'t': 'text', 'cd': 'cdata', 'c': 'comment', 'pi': 'pi'}[t])
             if t == 't' and any(p[0] != 'lit' for p in n['parts']):
